@@ -70,3 +70,7 @@ pub fn untok_opt_u64(t: &str) -> Option<Option<u64>> {
     }
 }
 pub const BAD: &str = "BADCASE";
+
+/// Raised (panic_any) by the harness itself when a case runs out of scripted clock readings or
+/// replies: a malformed case, not an observation of the crate.
+pub struct Exhausted;
